@@ -8,6 +8,7 @@ import (
 	"bytes"
 	"encoding/json"
 	"fmt"
+	"github.com/icon-project/goloop/common"
 	"math/big"
 	"testing"
 
@@ -147,7 +148,10 @@ func executeWith(rc *kit.RunCtx, w *world, specs []*txSpec, level int, scheduled
 	res.x = x
 	tr := n.newTransition(buildTxs(w, x, specs, n.height+1), x)
 	if scheduled {
+		common.SimAcquireHook = lockSiteYield
 		res.out = x.drive(tr)
+		common.SimAcquireHook = nil
+		rc.Metric("lock_site_yields", int64(x.lockYields))
 	} else {
 		curExec = x
 		cb := newExecCB()
